@@ -63,7 +63,7 @@ def build(rnd, pack, dcls):
     for _ in range(rnd.randint(2, 14)):
         ctx = rnd.choice(['text', 'text', 'text', 'unkarg', 'declarg', 'foot', 'head', 'item', 'env', 'inline',
                           'display', 'comment', 'skip', 'ltskip', 'decl', 'uenv', 'define', 'declenv', 'cell',
-                          'caption', 'nested_unk', 'mathtext', 'verb', 'group', 'usermacarg', 'theorem'])
+                          'caption', 'nested_unk', 'mathtext', 'verb', 'group', 'usermacarg', 'theorem', 'inspect'])
         n = rnd.choice(names)
         if ctx == 'text':
             parts.append('w ' + use(n) + ' w')
@@ -85,6 +85,18 @@ def build(rnd, pack, dcls):
             rec(n)
         elif ctx == 'declarg':
             parts.append('\\LTadd{a ' + use(n) + ' b}')
+            rec(n)
+        elif ctx == 'inspect':
+            # arguments that the filter expands only to look at them (lengths, phantom text, theorem titles)
+            k = rnd.randrange(4)
+            if k == 0:
+                parts.append('w\\hspace{' + use(n) + '}w')
+            elif k == 1:
+                parts.append('w \\phantom{a ' + use(n) + '} w')
+            elif k == 2:
+                parts.append('w \\hphantom{' + use(n) + '} w')
+            else:
+                parts.append('\\newtheorem{zthm%s}{T ' % rnd.choice(LET) + use(n) + '}')
             rec(n)
         elif ctx == 'foot':
             parts.append('w\\footnote{a ' + use(n) + ' b}')
@@ -154,7 +166,7 @@ class C19(core.Check):
     rule = ('documents of 2-14 constructs mixing fresh undeclared macro / environment names (checked against the live '
             'tables) and declared names (built-in, per loaded package / class, defined earlier in the document) in text, '
             'arguments of unknown / declared / user macros, footnotes, captions, headings, items, cells, environments, '
-            'theorem bodies, inline and display maths (both delimiters, environments inside maths), comments, skipped '
+            'theorem bodies, arguments that are expanded for inspection only (\\hspace, \\phantom, theorem titles), inline and display maths (both delimiters, environments inside maths), comments, skipped '
             'regions, \\LTskip, \\verb / verbatim; package selections %s, classes %s; through tex2txt(unkn=True), and '
             'a sample through `python -m yalafi --unkn` and `yalafi.shell --list-unknown`. non-trivial = expected list '
             'non-empty and the document also uses names that must not be listed; distinct = distinct (source, options)'
